@@ -6,7 +6,7 @@ import json, os, subprocess
 VERIF = os.path.dirname(os.path.dirname(os.path.abspath(__file__)))
 
 COMMON_NOTE = ("Trusted: Verus+Z3; the contract vocabulary (prelude.rs) incl. recorder/`delivered` witnesses that rest on "
-               "linearity and parametricity of generic by-value observers; extraction rules R1-R17 (syntactic, counted in "
+               "linearity and parametricity of generic by-value observers; extraction rules R1-R18 (syntactic, counted in "
                "evidence); one-handle stand-in for MutRc/MutArc with a ghost cell identity (simultaneous access through two handles "
                "and the dynamic borrow/lock acquisition are not modelled: thread interleavings are NOT covered, re-entrancy only "
                "through the re-entry-discipline assertions, the borrow / free probes (lock scope decided by the borrow checker on the stand-ins, guard scopes of `if let` scrutinees modelled by R13) and the Kani lock-scope obligations); closures total and "
